@@ -3,9 +3,11 @@ mod uris;
 mod c30;
 mod c31;
 mod c29;
+mod c38;
 
 fn run(name: &str, ctx: &mut rvcore::Ctx) -> bool {
     match name {
+        "c38" => c38::run_c38(ctx),
         "c30" => c30::run_c30(ctx),
         "c31" => c31::run_c31(ctx),
         "c29" => c29::run_c29(ctx),
@@ -20,11 +22,12 @@ fn run(name: &str, ctx: &mut rvcore::Ctx) -> bool {
 fn special(name: &str, args: &[String]) -> Option<i32> {
     match name {
         "-h" => Some(0),
-        "fake-rsync" => {
+        // `--no-motd` is the first of routinator's default rsync arguments (`rsync-args` unset).
+        "fake-rsync" | "--no-motd" => {
             if let Ok(path) = std::env::var("VERIF_RSYNC_LOG") {
                 use std::io::Write;
                 if let Ok(mut file) = std::fs::OpenOptions::new().create(true).append(true).open(path) {
-                    let _ = writeln!(file, "{}", args.join(" "));
+                    let _ = writeln!(file, "{} {}", name, args.join(" "));
                 }
             }
             Some(std::env::var("VERIF_RSYNC_EXIT").ok().and_then(|s| s.parse().ok()).unwrap_or(1))
@@ -34,3 +37,20 @@ fn special(name: &str, args: &[String]) -> Option<i32> {
 }
 
 fn main() { rvcore::main_with(run, special) }
+
+/// Routinator's log messages on stderr when `VERIF_LOG` is set (debugging aid).
+pub struct StderrLog;
+impl log::Log for StderrLog {
+    fn enabled(&self, _: &log::Metadata) -> bool { true }
+    fn log(&self, record: &log::Record) {
+        if record.level() <= log::Level::Warn { eprintln!("[{}] {}", record.level(), record.args()) }
+    }
+    fn flush(&self) { }
+}
+pub fn init_log() {
+    if std::env::var("VERIF_LOG").is_ok() {
+        static LOGGER: StderrLog = StderrLog;
+        let _ = log::set_logger(&LOGGER);
+        log::set_max_level(log::LevelFilter::Warn);
+    }
+}
